@@ -48,35 +48,35 @@ type allExt struct {
 func (e allExt) ExtensionName() string                   { return "all" + e.name }
 func (e allExt) Validate(graphql.ExecutableSchema) error { return nil }
 func (e allExt) MutateOperationParameters(ctx context.Context, p *graphql.RawParams) *gqlerror.Error {
-	e.log.Add("pm:%s", e.name)
+	handschema.LogOf(ctx, e.log).Add("pm:%s", e.name)
 	return nil
 }
 func (e allExt) MutateOperationContext(ctx context.Context, oc *graphql.OperationContext) *gqlerror.Error {
-	e.log.Add("cm:%s", e.name)
+	handschema.LogOf(ctx, e.log).Add("cm:%s", e.name)
 	return nil
 }
 func (e allExt) InterceptOperation(ctx context.Context, next graphql.OperationHandler) graphql.ResponseHandler {
-	e.log.Add("op-in:%s", e.name)
+	handschema.LogOf(ctx, e.log).Add("op-in:%s", e.name)
 	r := next(ctx)
-	e.log.Add("op-out:%s", e.name)
+	handschema.LogOf(ctx, e.log).Add("op-out:%s", e.name)
 	return r
 }
 func (e allExt) InterceptResponse(ctx context.Context, next graphql.ResponseHandler) *graphql.Response {
-	e.log.Add("resp-in:%s", e.name)
+	handschema.LogOf(ctx, e.log).Add("resp-in:%s", e.name)
 	r := next(ctx)
-	e.log.Add("resp-out:%s", e.name)
+	handschema.LogOf(ctx, e.log).Add("resp-out:%s", e.name)
 	return r
 }
 func (e allExt) InterceptRootField(ctx context.Context, next graphql.RootResolver) graphql.Marshaler {
-	e.log.Add("root-in:%s", e.name)
+	handschema.LogOf(ctx, e.log).Add("root-in:%s", e.name)
 	r := next(ctx)
-	e.log.Add("root-out:%s", e.name)
+	handschema.LogOf(ctx, e.log).Add("root-out:%s", e.name)
 	return r
 }
 func (e allExt) InterceptField(ctx context.Context, next graphql.Resolver) (any, error) {
-	e.log.Add("field-in:%s", e.name)
+	handschema.LogOf(ctx, e.log).Add("field-in:%s", e.name)
 	r, err := next(ctx)
-	e.log.Add("field-out:%s", e.name)
+	handschema.LogOf(ctx, e.log).Add("field-out:%s", e.name)
 	return r, err
 }
 
@@ -85,7 +85,7 @@ type pmReject struct{ log *handschema.Log }
 func (e pmReject) ExtensionName() string                   { return "pmReject" }
 func (e pmReject) Validate(graphql.ExecutableSchema) error { return nil }
 func (e pmReject) MutateOperationParameters(ctx context.Context, p *graphql.RawParams) *gqlerror.Error {
-	e.log.Add("pm:R")
+	handschema.LogOf(ctx, e.log).Add("pm:R")
 	return gqlerror.Errorf("rejected by parameter mutator")
 }
 
@@ -94,7 +94,7 @@ type cmReject struct{ log *handschema.Log }
 func (e cmReject) ExtensionName() string                   { return "cmReject" }
 func (e cmReject) Validate(graphql.ExecutableSchema) error { return nil }
 func (e cmReject) MutateOperationContext(ctx context.Context, oc *graphql.OperationContext) *gqlerror.Error {
-	e.log.Add("cm:R")
+	handschema.LogOf(ctx, e.log).Add("cm:R")
 	return gqlerror.Errorf("rejected by context mutator")
 }
 
@@ -103,9 +103,9 @@ type fieldExt struct{ log *handschema.Log }
 func (e fieldExt) ExtensionName() string                   { return "fieldOnly" }
 func (e fieldExt) Validate(graphql.ExecutableSchema) error { return nil }
 func (e fieldExt) InterceptField(ctx context.Context, next graphql.Resolver) (any, error) {
-	e.log.Add("field-in:F")
+	handschema.LogOf(ctx, e.log).Add("field-in:F")
 	r, err := next(ctx)
-	e.log.Add("field-out:F")
+	handschema.LogOf(ctx, e.log).Add("field-out:F")
 	return r, err
 }
 
@@ -114,9 +114,9 @@ type respExt struct{ log *handschema.Log }
 func (e respExt) ExtensionName() string                   { return "respOnly" }
 func (e respExt) Validate(graphql.ExecutableSchema) error { return nil }
 func (e respExt) InterceptResponse(ctx context.Context, next graphql.ResponseHandler) *graphql.Response {
-	e.log.Add("resp-in:S")
+	handschema.LogOf(ctx, e.log).Add("resp-in:S")
 	r := next(ctx)
-	e.log.Add("resp-out:S")
+	handschema.LogOf(ctx, e.log).Add("resp-out:S")
 	return r
 }
 
@@ -193,6 +193,15 @@ func requests() []reqSpec {
 		{Name: "ambiguous-operation", Query: `query A{a} query B{name}`, Accept: false},
 		{Name: "variable-wrong-json-type", Query: `query($x:Int){b(x:$x)}`, Vars: map[string]any{"x": "abc"}, Accept: false},
 		{Name: "missing-nonnull-variable", Query: `query($x:Int!){b(x:$x)}`, Accept: false},
+		// the same coercion failures for every document shape: named operation chosen by name, and
+		// either operation of a two-operation document (the accepted twin of each shape comes first)
+		{Name: "named-var", Query: `query N($x:Int){b(x:$x)}`, OpName: "N", Vars: map[string]any{"x": json.Number("3")}, Accept: true, Roots: []string{"Query.b"}, ValidatorDecides: true},
+		{Name: "two-ops-var-second", Query: `query A{a} query B($x:Int!){b(x:$x)}`, OpName: "B", Vars: map[string]any{"x": json.Number("3")}, Accept: true, Roots: []string{"Query.b"}, ValidatorDecides: true},
+		{Name: "named-variable-wrong-json-type", Query: `query N($x:Int){b(x:$x)}`, OpName: "N", Vars: map[string]any{"x": "abc"}, Accept: false},
+		{Name: "two-ops-second-variable-wrong-json-type", Query: `query A{a} query B($x:Int){b(x:$x)}`, OpName: "B", Vars: map[string]any{"x": "abc"}, Accept: false},
+		{Name: "two-ops-first-missing-nonnull-variable", Query: `query A($x:Int!){b(x:$x)} query B{name}`, OpName: "A", Accept: false},
+		{Name: "two-ops-second-null-for-nonnull-variable", Query: `query A{a} query B($x:Int!){b(x:$x)}`, OpName: "B", Vars: map[string]any{"x": nil}, Accept: false},
+		{Name: "mutation-missing-nonnull-variable", Query: `mutation($v:Int!){m(v:$v)}`, Accept: false},
 		// a client-supplied persisted-query hash that NOTHING verifies (no APQ extension): it
 		// must not let an invalid document ride on a valid one that carried the same hash
 		{Name: "a-with-hash", Query: `{a}`, Accept: true, Roots: []string{"Query.a"}, ValidatorDecides: true, Ext: map[string]any{"persistedQuery": map[string]any{"version": 1, "sha256Hash": "h1"}}},
@@ -509,6 +518,7 @@ func sequentialShard(tier string, shard, n int, deadline time.Time) seqResult {
 
 type concInst struct {
 	reqs    []reqSpec
+	exts    []string // extensions registered on the shared executor (hooks log per request)
 	cache   string
 	mixed   bool // a second executor WITH suggestions in the same process
 	logs    []*handschema.Log
@@ -525,10 +535,10 @@ func (ci *concInst) Body() {
 	ci.out = make([]outcome, n)
 	// one executor shared by all requests (shared cache, shared global rules); per-request logs
 	shared := &handschema.Log{}
-	ex := newExecutor(shared, nil, ci.cache, true)
+	ex := newExecutor(shared, ci.exts, ci.cache, true)
 	var ex2 *executor.Executor
 	if ci.mixed {
-		ex2 = newExecutor(shared, nil, ci.cache, false)
+		ex2 = newExecutor(shared, ci.exts, ci.cache, false)
 	}
 	done := make(chan int, n)
 	for i := range ci.reqs {
@@ -603,7 +613,7 @@ func (ci *concInst) Check(x *explore.Exec) (string, string) {
 	}
 	for i, r := range ci.reqs {
 		gl := normalise(ci.out[i].Log)
-		want, accepted := expectedLog(r, nil)
+		want, accepted := expectedLog(r, ci.exts)
 		if !accepted {
 			for _, e := range gl {
 				for _, f := range forbiddenWhenRejected {
@@ -653,6 +663,17 @@ func concScenarios(tier string) []*explore.Scenario {
 		add([]string{"a", "unknown-field-only"}, cache, true, &unb)
 	}
 	add([]string{"a", "unknown-field-only", "a-name"}, "none", false, &three)
+	// the FIRST requests of a freshly configured executor arrive together: every one of them
+	// passes through all registered extensions (gates included)
+	one := 1
+	for _, exts := range [][]string{{"A"}, {"P"}, {"A", "C"}} {
+		exts := exts
+		names := []string{"a", "unknown-field-only"}
+		reqs := []reqSpec{byName["a"], byName["unknown-field-only"]}
+		out = append(out, &explore.Scenario{Name: fmt.Sprintf("%v exts=%v first requests together", names, exts), Bound: &one,
+			Meta: map[string]any{"requests": names, "extensions": exts},
+			New:  func() explore.Instance { return &concInst{reqs: reqs, exts: exts, cache: "none"} }})
+	}
 	if tier == "thorough" {
 		add([]string{"a", "unknown-field-only", "unknown-field"}, "lru8", false, &three)
 		add([]string{"a", "unknown-field-only", "a-name"}, "none", true, &three)
@@ -679,7 +700,7 @@ func main() {
 		PassArgs:  []string{"--conc", "1"},
 		BudgetQ:   70 * time.Second, BudgetT: 8 * time.Minute,
 	}
-	if argValue("--scenario") != "" || common.ReplayArg() != "" && argValue("--conc") != "" {
+	if argValue("--scenario") != "" || argValue("--free-run") != "" || common.ReplayArg() != "" && argValue("--conc") != "" {
 		explore.Main(opts)
 		return
 	}
